@@ -64,15 +64,17 @@ def tail_after(modname, qualname, marker, params, name='_sliced'):
     return loc[name], ast.unparse(mod)
 
 
-def head_until(modname, qualname, marker, params, ret, name='_sliced_head'):
+def head_until(modname, qualname, marker, params, ret, name='_sliced_head', before=False):
     """function(params...) running the statements of `qualname` up to and including the LAST statement equal to
-    `marker`, then returning `ret` (an expression over the function's locals)."""
+    `marker` (before=True: up to but excluding it), then returning `ret` (an expression over the function's locals)."""
     src, fn = _source(modname)
     tree = ast.parse(src)
     f = _find_func(tree, qualname)
     idx = _find_marker(f, marker)
     if idx is None:
         raise core.EngineError('slicer: marker %r not found in %s.%s' % (marker, modname, qualname))
+    if before:
+        idx -= 1
     body = [st for st in f.body[:idx + 1]
             if not (isinstance(st, ast.Expr) and isinstance(getattr(st, 'value', None), ast.Constant) and isinstance(st.value.value, str))]
     body.append(ast.parse('return ' + ret).body[0])
